@@ -151,4 +151,39 @@ example :
       ⟨[⟨"ion", "D", "H", true⟩], [["H"], ["D"]], ["D", "H"], false, false⟩ = Result.rate ["H"] (some "D") false := by
   decide
 
+/-! ### proof-deepening pass: lifting lemmas from the generated table -/
+
+/-- number of leading density / temperature / energy parameters per shape (as `Tab.dteCount`) -/
+def dteCountOf : Shape → Nat
+  | Shape.grid2 => 2
+  | Shape.grid3 => 3
+  | Shape.beam => 3
+  | Shape.beamCX => 3
+
+/-- positions ↔ names: in every *generated* class the density / temperature / energy parameters of `evaluate` are
+exactly its first `dteCountOf shape` parameters, and exactly those are in the leading guard.  With
+`Cherab.Props.C07.zero_guard_wins` (positions `< dteCount`): in every class of the current source a non-positive value of
+any parameter named density / temperature / energy gives 0 whatever the other arguments are. -/
+theorem guard_positions_table :
+    ∀ m ∈ modelled, ∃ c ∈ rateClasses, c.name = m.name ∧ c.guarded = c.evalParams.take (dteCountOf m.shape)
+      ∧ ((c.evalParams.take (dteCountOf m.shape)).all isDTE) = true
+      ∧ ((c.evalParams.drop (dteCountOf m.shape)).all fun p => !isDTE p) = true := by decide
+
+/-- the provider at HEAD as a function of the request (one species against a fixed wavelength store) -/
+def wlRequest (wls : List String) (fb : Bool) (sp : Sp) : Option (Option String) :=
+  wavelengthLookup wavelengthPolicy ⟨[sp], [], wls, false, fb⟩ (Src.raw sp.param)
+
+/-- a provider that memoises `wavelength` under the full species is indistinguishable from the stateless one on every
+history of requests -/
+theorem wavelength_memo_by_species_transparent (wls : List String) (fb : Bool) (hist : List Sp) :
+    Memo.answers (fun sp : Sp => sp) (wlRequest wls fb) [] hist = hist.map (wlRequest wls fb) :=
+  Cherab.Props.C07.memo_transparent _ _ (fun _ _ h => by rw [h]) [] (fun e he => absurd he (by simp)) hist
+
+/-- … one that memoises under the element only (the seeded `(atomic_number, charge, transition)` key) is not: carbon,
+then carbon-13, both wavelengths stored — the isotope gets the element's wavelength -/
+theorem wavelength_memo_by_element_unsound :
+    Memo.answers (fun sp : Sp => sp.elemSym) (wlRequest ["C", "C13"] false) []
+        [⟨"ion", "C", "C", false⟩, ⟨"ion", "C13", "C", true⟩] = [some (some "C"), some (some "C")]
+      ∧ wlRequest ["C", "C13"] false ⟨"ion", "C13", "C", true⟩ = some (some "C13") := by decide
+
 end Cherab.Props.C07Table
